@@ -251,6 +251,24 @@ reg('C16', 'model_checking',
     'against a reference model', 'E2-history-bfs')
 
 
+reg('C17', 'model_checking',
+    'Every neighbour algorithm (the seven documented ones must support '
+    're-ordering, the others may raise NotImplementedError) x cache on/off '
+    'on all placements of <=4 particles on small 1-3 D lattices x one/two '
+    'arrays x ghost tails {0,1,2} x two h patterns, plus larger blocks with '
+    'arrays of different sizes; arrays carry every C type and stride-2/3 '
+    'properties (created before or after the scalar ones). Histories of '
+    'reorder / update / move on one long-lived NNPS object: the index list '
+    'must be a permutation, the multiset of whole particle records must be '
+    'unchanged, Local particles must stay ahead of ghosts, and after the '
+    'next update the object must answer like a freshly built one.',
+    'Trusted: record comparison; the differential neighbour oracle (fresh '
+    'object of the same class). Configurations on which an algorithm '
+    'cannot even be constructed (C01 findings) are listed as not exercised.',
+    'bounded-exhaustive placement enumeration + operation histories on the '
+    'real objects', 'E2-history-bfs')
+
+
 def main():
     props = [json.loads(l) for l in open(os.path.join(V, 'properties.jsonl'))]
     checks = []
